@@ -57,10 +57,6 @@ class SimItem(A.BatchItemBase):
     def _notify(self, _):
         self.batch.B._item_computed(self)
 
-    def __str__(self):
-        return "SimItem(%s)" % self.tok
-
-    __repr__ = __str__
 
 
 class SimBatch(A.BatchBase):
@@ -106,10 +102,68 @@ class SimBatch(A.BatchBase):
     def _cancel(self):
         self.B.ev("cancel", self.bid)
 
-    def __str__(self):
-        return "SimBatch(%s)" % self.bid
 
-    __repr__ = __str__
+
+class SimDebugItem(_batching.DebugBatchItem):
+    """The built-in DebugBatchItem, with a harness token."""
+
+    def __init__(self, B, tok, kind, key):
+        _batching.DebugBatchItem.__init__(self, "k%d" % kind, "%d:%s" % (kind, key))
+        self.tok = tok
+        self.key = key
+        self.ncomputed = 0
+        self.on_computed.subscribe(self._notify)
+
+    def _notify(self, _):
+        self.batch.B._item_computed(self)
+
+
+class SimDebugBatch(_batching.DebugBatch):
+    """The built-in DebugBatch with a seeded hash/priority; flush body is the real one."""
+
+    def __init__(self, B, kind, gen):
+        _batching.DebugBatch.__init__(self, "k%d" % kind, gen)
+        self.B = B
+        self.kind = kind
+        self.gen = gen
+        self.hashval = B.next_hash(kind, gen)
+        self.prio = B.batch_prio(kind, gen)
+        self.nflush_body = 0
+        self.bid = "%d/%d" % (kind, gen)
+
+    def __hash__(self):
+        return self.hashval
+
+    def __eq__(self, other):
+        return self is other
+
+    def __ne__(self, other):
+        return self is not other
+
+    def _try_switch_active_batch(self):
+        st = _batching._debug_batch_state.batches
+        if st.get(self.name, None) is self:
+            nb = SimDebugBatch(self.B, self.kind, self.gen + 1)
+            st[self.name] = nb
+            if self.B.current[self.kind] is self:
+                self.B.current[self.kind] = nb
+
+    get_priority = SimBatch.get_priority
+
+    def _flush(self):
+        self.nflush_body += 1
+        B = self.B
+        kind = self.kind
+        B.kind_flushes[kind] += 1
+        toks = [it.tok for it in self.items]
+        rec = {"kind": kind, "gen": self.gen, "tokens": toks, "at": len(B.trace),
+               "sched": B.sched_flush is self, "depth": len(B.extents)}
+        B.flushes.append(rec)
+        B.ev("flush", self.bid, tuple(toks))
+        if B.current[kind] is self:
+            B.viol("C11", "switch-before-flush", "debug batch %s still the active batch while its flush body runs" % self.bid)
+        _batching.DebugBatch._flush(self)
+        rec["end"] = len(B.trace)
 
 
 class _CtxMixin(object):
@@ -177,10 +231,8 @@ class SimContext(_CtxMixin, A.AsyncContext):
     def pause(self):
         self._log_pause()
 
-    def __str__(self):
+    def __repr__(self):
         return "SimContext(%s)" % self.cid
-
-    __repr__ = __str__
 
 
 class SimOverride(_CtxMixin, _sv._AsyncScopedValueOverrideContext):
@@ -234,10 +286,8 @@ class SimNonAsync(A.NonAsyncContext):
         self.active = False
         self.entered = False
 
-    def __str__(self):
+    def __repr__(self):
         return "SimNonAsync(%s)" % self.cid
-
-    __repr__ = __str__
 
 
 class AttrTarget(object):
@@ -328,8 +378,13 @@ class RealBackend(object):
         self.scheduler.on_after_batch_flush.subscribe(self._after_flush)
         self.current = [None] * spec["kinds"]
         carried = self.carried or []
+        self.debug_kinds = set(spec.get("debug_kinds", []))
         for k in range(spec["kinds"]):
-            if k < len(carried) and carried[k] is not None and not carried[k].is_flushed():
+            if k in self.debug_kinds:
+                b = SimDebugBatch(self, k, 0)
+                _batching._debug_batch_state.batches[b.name] = b
+                self.current[k] = b
+            elif k < len(carried) and carried[k] is not None and not carried[k].is_flushed():
                 b = carried[k]
                 b.B = self
                 for it in b.items:
@@ -503,7 +558,10 @@ class RealBackend(object):
             raise SimError("cb:%s" % inst.token)
 
     def item(self, inst, tok, kind, key):
-        it = SimItem(self.current[kind], tok, key, self)
+        if kind in self.debug_kinds:
+            it = SimDebugItem(self, tok, kind, key)
+        else:
+            it = SimItem(self.current[kind], tok, key, self)
         self.items[tok] = it
         self.ev("item", tok, it.batch.bid)
         return it
@@ -906,7 +964,7 @@ class RealBackend(object):
         for inst in self.insts.values():
             if inst.started and not inst.done and inst.awaiting is not None and self._reachable_from_root(inst):
                 for leaf, _, _ in flatten(inst.awaiting):
-                    if isinstance(leaf, SimItem) and leaf.batch is b and not leaf.is_computed():
+                    if isinstance(leaf, (SimItem, SimDebugItem)) and leaf.batch is b and not leaf.is_computed():
                         return True
         return False
 
@@ -941,7 +999,7 @@ class RealBackend(object):
                         ci = _inst_of(leaf)
                         if ci is not None:
                             stack.append(ci)
-                    elif isinstance(leaf, SimItem):
+                    elif isinstance(leaf, (SimItem, SimDebugItem)):
                         if leaf.batch.is_flushed():
                             self.viol("C04", "item-state", "item %s uncomputed but its batch is flushed" % leaf.tok)
                     else:
@@ -979,6 +1037,10 @@ class RealBackend(object):
                 it.set_error(e)
             else:
                 it.set_value("%d:%s" % (kind, it.key))
+        if plan and plan.get("reenter"):
+            self.fired("flush_reenters")
+            k2 = plan["reenter"] % self.spec["kinds"]
+            self._reenter(kind, ordn, k2)
         if plan:
             if plan.get("new_items"):
                 self.fired("flush_creates_items")
@@ -989,6 +1051,21 @@ class RealBackend(object):
             if plan.get("raise_at") is not None and plan["raise_at"] >= len(items):
                 self._flush_raise(kind, ordn, plan)
         rec["end"] = len(self.trace)
+
+    def _reenter(self, kind, ordn, k2):
+        """The flush body synchronously calls an @asynq function that awaits a request of kind k2."""
+        B = self
+
+        @A.asynq()
+        def reentrant():
+            it = SimItem(B.current[k2], "x%d.%d.r" % (kind, ordn), "xr", B)
+            v = yield it
+            return v
+
+        try:
+            reentrant()
+        except SimError:
+            pass
 
     def _flush_raise(self, kind, ordn, plan):
         tag = "fe:%d#%d" % (kind, ordn)
